@@ -2,6 +2,7 @@ package simchain
 
 import (
 	"fmt"
+	"os"
 
 	"cosmossdk.io/log"
 	dbm "github.com/cosmos/cosmos-db"
@@ -21,6 +22,10 @@ func NewApp(db dbm.DB) *app.OsmosisApp { return newApp(db) }
 func NewAppWithOptions(db dbm.DB, opts servertypes.AppOptions) *app.OsmosisApp {
 	appSeq++
 	dir := fmt.Sprintf("%s/%d", home(), appSeq)
-	return app.NewOsmosisApp(log.NewNopLogger(), db, nil, true, map[int64]bool{}, dir, 0,
+	lg := log.NewNopLogger()
+	if os.Getenv("VERIF_DEBUG_APP_LOG") != "" { // debugging aid: application log of option-built replicas to stderr
+		lg = log.NewLogger(os.Stderr)
+	}
+	return app.NewOsmosisApp(lg, db, nil, true, map[int64]bool{}, dir, 0,
 		opts, app.EmptyWasmOpts, baseapp.SetChainID(ChainID))
 }
